@@ -426,7 +426,7 @@ def _sites(kind):
         s += ['filter', 'collapse', 'errcheck', 'remove_empty', 'subsample',
               'partition']
     if kind in ('obsdup', 'sampdup'):
-        s += ['update_ids']
+        s += ['update_ids', 'copy', 'derive']
     return s
 
 
@@ -474,6 +474,25 @@ def _call_site(ctx, kind, site, trigger, variant=0):
             return (lambda: ctx.err.errcheck(e, 'empty')), ([], [])
         return (lambda: ctx.err.errcheck(base, 'empty')), (['o1', 'o2'],
                                                            ['s1', 's2'])
+    if site in ('copy', 'derive'):
+        # a table that was put together while repeated ids were tolerated is
+        # copied (or a new table derived from it) under the profile in force
+        # now: the new table is constructed, so it is judged
+        ids_o = ['o1', 'o1'] if (trigger and kind == 'obsdup') else ['o1',
+                                                                     'o2']
+        ids_s = ['s1', 's1'] if (trigger and kind == 'sampdup') else ['s1',
+                                                                      's2']
+        with ctx.err.errstate(obsdup='ignore', sampdup='ignore'):
+            src = Table(np.array([[1., 2.], [3., 4.]]), ids_o, ids_s)
+        if site == 'copy':
+            return (lambda: src.copy()), (ids_o, ids_s)
+        how = variant % 3
+        if how == 0:
+            return (lambda: src.norm(inplace=False)), (ids_o, ids_s)
+        if how == 1:
+            return (lambda: src.pa(inplace=False)), (ids_o, ids_s)
+        return (lambda: src.transform(lambda v, i, m: v + 1,
+                                      inplace=False)), (ids_o, ids_s)
     if site == 'update_ids':
         axis = 'observation' if kind == 'obsdup' else 'sample'
         ids = ['o1', 'o2'] if axis == 'observation' else ['s1', 's2']
